@@ -239,6 +239,14 @@ class _ReadSourceGenerator:
                     # The block doesn't start where the previous read ended (alignment gap), seek to it
                     yield f"stream.seek(o + {field.offset})"
                     current_offset = field.offset
+                elif field.offset is not None and current_offset is not None and field.offset < current_offset:
+                    # The field starts before the previous one ended (an explicit offset), it can't be part of the same read
+                    yield from flush()
+                    yield f"stream.seek(o + {field.offset})"
+                    current_offset = field.offset
+                elif field.offset is not None and current_offset is not None and field.offset > current_offset:
+                    # A gap inside the block (it is padded when the block is generated): keep track of where we are
+                    current_offset = field.offset
 
                 current_block.append(field)
 
